@@ -2655,6 +2655,12 @@ impl Connection {
 
                             // Discard already-queued frames
                             self.spaces[SpaceId::Data].pending = Retransmits::default();
+                            // ...and datagrams, which are early data just as much
+                            self.datagrams.outgoing.clear();
+                            self.datagrams.outgoing_total = 0;
+                            if mem::take(&mut self.datagrams.send_blocked) {
+                                self.events.push_back(Event::DatagramsUnblocked);
+                            }
 
                             // Discard 0-RTT packets
                             let sent_packets =
